@@ -22,6 +22,8 @@ divisions spelled operator.truediv and nested operator procedures; hoisted `x is
 Round 9: `while remaining > eps` needs a shortcut that takes everything up to eps; library lambdas wrapped around a calendar
 (apply / FuncCalendar) must not compute on a None answer; an unreadable booking guard is UNDECIDED, a recognised wrong one
 (`free >= 0`) REFUTED; recursion_stays_in_wbs: REFUTED only for a truly unguarded call or a positively widened guard.
+Round 10: the divisor may be an alias of the loop's capacity variable set after the loop; the future-end test may sit in the
+filter of next()/any(); nothing in the reach deep-copies user values; memo-idiom subscripts (`if k not in D: D[k] = ..`).
 Not decided: stack depth on legitimately deep acyclic inputs; exceptions raised inside user supplied IResource /
 calendar callables; clone()'s dictionary lookups (assumption table: keys are drawn from the collection that built the map).
 """
@@ -195,6 +197,24 @@ def check(ctx):
                "resource class with value equality and no __hash__ (a plain @dataclass) would end calc in TypeError: unhashable type",
                floor=2)
     ctx.guarded(o, lambda o: resource_keys(ctx, o, core))
+
+    o = ctx.ob('user_values_are_not_deep_copied', 'R6b',
+               "nothing in the reach of calc (clone included) deep-copies attribute values supplied by the user: copy.deepcopy of a "
+               "value that cannot be copied (lock, generator, file) is a TypeError that leaves calc", floor=1)
+
+    def no_deepcopy(o):
+        n_ = 0
+        for f in reach:
+            if isinstance(f.node, ast.Lambda):
+                continue
+            for n in walk_no_nested(f.node):
+                if isinstance(n, ast.Call) and ((isinstance(n.func, ast.Name) and n.func.id == 'deepcopy') or
+                                                (isinstance(n.func, ast.Attribute) and n.func.attr == 'deepcopy')):
+                    n_ += 1
+                    o.refute(f, n, n, f"`{src(n)[:70]}` in the reach of calc: a user supplied value that cannot be deep-copied ends calc in TypeError")
+        if not n_:
+            o.site(calcs[0], calcs[0].node, f"no deepcopy in the {len(reach)} functions calc reaches")
+    ctx.guarded(o, no_deepcopy)
 
     o = ctx.ob('next_has_a_default', 'R6b',
                "every next() on an iterator that can run dry (a filtered / finite generator) passes a default and every "
@@ -1046,7 +1066,11 @@ def _loop_exit_divisor(ctx, f, node, D, S):
         return "the booking is not guarded by free > 0"
     Dx = ex.expand(D, cn, stop=selfref)
     capD = parse_cap(Dx)
+    if capD is None and isinstance(Dx, ast.Name) and not isinstance(D, ast.Name):
+        D = Dx
     if capD is None and isinstance(D, ast.Name):
+        if isinstance(Dx, ast.Name) and Dx.id != D.id:
+            D = Dx           # `date, cap = (date_i, cap_i)` after the loop: the divisor is an alias of the loop's capacity variable
         def cap_of_def(d):
             if d.kind != 'assign' or d.value is None:
                 return None
@@ -1450,6 +1474,50 @@ def messages(ctx, o, core):
                 o.site(f, r, "message built without `+` on nullable fields")
 
 
+def _key_present(f, sub):
+    """memo idiom `if k not in D: D[k] = v` ... `D[k]`: every path from the entry to the read stores D[k] or passes a branch on
+    which `k in D` holds; and neither D nor the names in k are rebound in between (checked coarsely: no other store to them
+    after the generating node on the way)"""
+    cfg = cfg_of(f)
+    at = cfg.node_containing(sub)
+    if at is None:
+        return False
+    gen = set()
+    for n in walk_no_nested(f.node):
+        if isinstance(n, ast.Assign):
+            for t in n.targets:
+                if isinstance(t, ast.Subscript) and same(t.value, sub.value) and same(t.slice, sub.slice):
+                    nn = cfg.node_of(n)
+                    if nn is not None:
+                        gen.add(nn.id)
+        elif isinstance(n, ast.Call) and isinstance(n.func, ast.Attribute) and n.func.attr == 'setdefault' and n.args and \
+                same(n.func.value, sub.value) and same(n.args[0], sub.slice):
+            nn = cfg.node_containing(n)
+            if nn is not None:
+                gen.add(nn.id)
+    for b in cfg.nodes:
+        if b.kind == 'branch' and b.test is not None and not isinstance(b.test, (ast.For, ast.AsyncFor)):
+            for a, q in facts.split_conj(b.test, b.polarity):
+                a2, q2 = facts.norm_cond(a, q)
+                if isinstance(a2, ast.Compare) and len(a2.ops) == 1 and isinstance(a2.ops[0], ast.In) and q2 and \
+                        same(a2.left, sub.slice) and same(a2.comparators[0], sub.value):
+                    gen.add(b.id)
+    if not gen:
+        return False
+    if at.id in gen:
+        return True
+    seen, todo = set(), [cfg.entry]
+    while todo:
+        x = todo.pop()
+        if x.id in seen or x.id in gen:
+            continue
+        seen.add(x.id)
+        if x is at:
+            return False
+        todo.extend(x.succ)
+    return True
+
+
 def subscripts(ctx, o, core):
     for f in core:
         if isinstance(f.node, ast.Lambda) or f.module.name != 'schedule':
@@ -1487,6 +1555,9 @@ def subscripts(ctx, o, core):
                 continue
             if isinstance(n.slice, ast.UnaryOp) and isinstance(n.slice.operand, ast.Constant):
                 o.site(f, n, "constant index")
+                continue
+            if _key_present(f, n):
+                o.site(f, n, f"{src(n)[:50]}: every path stores this key first or tests `key in container`")
                 continue
             o.refute(f, n, n, f"subscript `{src(n)}` with a computed key is not discharged (KeyError / IndexError)")
 
@@ -1704,7 +1775,18 @@ def future_end_check(ctx, o):
     for r in [x for x in walk_no_nested(vf.node) if isinstance(x, ast.Raise)]:
         if facts.exc_name(r) != 'RuntimeError':
             continue
-        for t, p in facts.node_conditions(prog, vf, r, ctx.typer, expand=True):
+        conds_r = list(facts.node_conditions(prog, vf, r, ctx.typer, expand=True))
+        # `late = next((t for t in tasks if <test>), None); if late is not None: raise` / `if any(<test> for t in tasks): raise`:
+        # the raise happens exactly when some task passes the filter - the filter is the test
+        for t0, p0 in list(conds_r):
+            if p0 or (facts.cond_is(t0, p0, "$x is None", want=False)):
+                for g_ in ast.walk(t0):
+                    if isinstance(g_, (ast.GeneratorExp, ast.ListComp)) and len(g_.generators) == 1:
+                        for c_ in g_.generators[0].ifs:
+                            conds_r += facts.split_conj(c_, True)
+                        if not g_.generators[0].ifs and not isinstance(g_.elt, ast.Name):
+                            conds_r += facts.split_conj(g_.elt, True)         # any(t.end > now for t in ..)
+        for t, p in conds_r:
             if not (isinstance(t, ast.Compare) and len(t.ops) == 1):
                 continue
             l, op, rr = t.left, t.ops[0], t.comparators[0]
